@@ -237,9 +237,17 @@ def run_item(item):
                                     xg = np.arange(n) / n
                                     v = f(2 * np.pi * k * xg)
                                     return torch.tensor(np.stack([v, 0.5 * v + 0.25], -1), dtype=torch.float32).unsqueeze(0)
-                                with torch.no_grad():
-                                    yc = lay(field(N))
-                                    yf = lay(field(fac * N))
+                                try:
+                                    with torch.no_grad():
+                                        yc = lay(field(N))
+                                        yf = lay(field(fac * N))
+                                    if yf.shape[1] != fac * N or yc.shape[1] != N:
+                                        raise RuntimeError("output grids have %d and %d nodes for inputs with %d and %d" % (yc.shape[1], yf.shape[1], N, fac * N))
+                                except Exception as e:
+                                    viol("C20|error|%s|resolution" % type(e).__name__, "%s: ONE layer evaluated on the coarse and then on the fine grid raised %s: %s" % (
+                                        cfg, type(e).__name__, str(e)[:120]))
+                                    ok = False
+                                    break
                                 res["evals"] += 1
                                 res["transitions"] += 1
                                 err = float((yf[:, ::fac] - yc).abs().max())
